@@ -80,6 +80,28 @@ Definition pick (n sig di : nat) (d : disk fkey xcont) : option (fkey * fstate x
   | None => best_file n sig (in_dir di d) None
   end.
 
+(* the largest file with this sigma ("to extend if not sufficient") *)
+Fixpoint largest_file (sig : nat) (l : list (fkey * fstate xcont)) (acc : option (fkey * fstate xcont))
+  : option (fkey * fstate xcont) :=
+  match l with
+  | [] => acc
+  | (k, c) :: r =>
+      let ok := (snd k =? sig) && match acc with Some (k', _) => fst k' <? fst k | None => 0 <? fst k end in
+      largest_file sig r (if ok then Some (k, c) else acc)
+  end.
+
+(* what `oldM, oldMc = np.load(full_path(largest_file))` inside the bare
+   try/except yields: nothing when the exact file exists (largest_file is then
+   unbound: NameError swallowed), when no file is there, or when loading fails *)
+Definition old_basis (n sig di : nat) (d : disk fkey xcont) : option (fstate xcont) :=
+  match find_file fkey_eqb di (n, sig) d with
+  | Some _ => None
+  | None => match largest_file sig (in_dir di d) None with
+            | Some (_, c) => Some c
+            | None => None
+            end
+  end.
+
 Definition set_bs (s : st) (g : bdglobal) (x : xcont) (n sig : nat) (d : disk fkey xcont) : st :=
   {| bs := Some x; bs_prm := Some (n, sig); trf_prm := None; trf := trf s;
      tri_prm := None; tri := tri s; gdir := g; dk := d |}.
@@ -102,12 +124,20 @@ Definition ensure_bs (s : st) (n sig : nat) (bd : bdarg) : st * option exc :=
     match dir with
     | None => (set_bs s1 g (ideal n sig) n sig (dk s), None)
     | Some di =>
-        (* generate (possibly extending the largest smaller file: same
-           content), then np.save under the exact name *)
-        let regenerate :=
+        (* generate, extending the largest file found (_bs_basex(n, sigma, oldM):
+           `M[:old_n, :old_nbf] = oldM / sigma` raises ValueError when oldM does
+           not fit: a larger good file, or the wrong-shape file of the harness,
+           which is wider than any basis), then save under the exact name *)
+        let generate :=
           if dir_writable di
           then (set_bs s1 g (ideal n sig) n sig (put_file fkey_eqb di (n, sig) (FGood (ideal n sig)) (dk s)), None)
           else (s1, Some EOther) in
+        let regenerate :=
+          match old_basis n sig di (dk s) with
+          | Some (FGood x) => if n <? x_n x then (s1, Some EValue) else generate
+          | Some FShape => (s1, Some EValue)
+          | _ => generate
+          end in
         match pick n sig di (dk s) with
         | None => regenerate
         | Some (_, FBad PValue) => regenerate            (* except ValueError *)
@@ -273,7 +303,8 @@ Definition hazard (s : st) (o : op) : bool :=
 Fixpoint no_hazard (s : st) (ops : list op) : bool :=
   match ops with [] => true | o :: r => negb (hazard s o) && no_hazard (fst (step s o)) r end.
 
-Definition damage (o : op) : bool := match o with Seed _ _ (FBad _) => true | _ => false end.
+Definition damage (o : op) : bool :=
+  match o with Seed _ _ (FBad _) | Seed _ _ FShape => true | _ => false end.
 Fixpoint no_damage (ops : list op) : bool :=
   match ops with [] => true | o :: r => negb (damage o) && no_damage r end.
 
